@@ -20,7 +20,7 @@ def c10(c, extra=()):
     """C10: a failing target call surfaces immediately: no handler on the path, no further call, honest count."""
     c.check_raises = True
     c.bools("ghost.target_raised")
-    c.req("no_pending_failure", "not truthy(ghost.target_raised)")
+    c.req("no_pending_failure", "not truthy(ghost.target_raised)", props=["C10"])
     c.ens("target_failure_not_swallowed", "not truthy(ghost.target_raised)", top=True, props=["C10"])
     counted = "fc - old(fc) <= ghost.n_calls - old(ghost.n_calls) and ghost.n_calls - old(ghost.n_calls) <= fc - old(fc) + 1"
     for e in ("TargetError", "ValueError", "AssertionError") + tuple(extra):
@@ -58,7 +58,7 @@ def _(c):
     common(c)
     c.req("no_stobads", "not truthy(self.options['stobads'])")
     c.req("forcing_nonneg", "self.optim_state['search_sufficient_improvement'] >= 0")
-    c.req("sc_lt", "0 <= sc and sc < NT")
+    c.req("sc_lt", "0 <= sc and sc < NT", props=["C03"])
     # C03: one search attempt is always counted, and costs at most one evaluation (C18)
     c.ens("search_counted", "sc == old(sc) + 1", top=True, props=["C03"])
     c.ens("at_most_one_eval", "fc >= old(fc) and fc <= old(fc) + 1", top=True, props=["C03", "C18"])
@@ -84,26 +84,26 @@ def _(c):
     common(c)
     options_wf(c)
     c.const("self.options['output_fcn']", None)
-    c.req("fresh_instance", "sc == NT")
+    c.req("fresh_instance", "sc == NT", props=["C03"])
     c.req("no_stobads", "not truthy(self.options['stobads'])")
-    c.req("mesh_start", "msi <= cap and ssi <= msi")
-    c.req("ghost_sync", "ghost.n_calls == fc")
+    c.req("mesh_start", "msi <= cap and ssi <= msi", props=["C13"])
+    c.req("ghost_sync", "ghost.n_calls == fc", props=["C03"])
     inv = {
-        "sc_range": "0 <= sc and sc <= NT",
-        "search_needs_points": "implies(0 < sc and sc < NT, nY > self.D)",
-        "ss_bound": "0 <= ss and ss <= fc - ghost.fc_round and ghost.fc_round <= fc",
-        "pi_range": "poll_iteration >= 0 and loop_iter >= 0",
-        "continuing": "implies(loop_iter > 0 and not is_finished, fc < B_ and poll_iteration <= MI - 1)",
-        "first": "implies(loop_iter == 0, sc == NT and ss == 0 and poll_iteration == 0 and not is_finished)",
-        "budget": "fc <= ite(B_ >= ghost.fc_init, B_, ghost.fc_init) and fc >= ghost.fc_init",
-        "iter_is_pi": "implies(loop_iter > 0, self.optim_state['iter'] == poll_iteration) and poll_iteration <= ite(MI - 1 >= 0, MI - 1, 0)",
-        "calls_counted": "ghost.n_calls == fc",
-        "no_failure": "not truthy(ghost.target_raised)",
+        "c03_sc_range": "0 <= sc and sc <= NT",
+        "c03_search_needs_points": "implies(0 < sc and sc < NT, nY > self.D)",
+        "c03_ss_bound": "0 <= ss and ss <= fc - ghost.fc_round and ghost.fc_round <= fc",
+        "c03_pi_range": "poll_iteration >= 0 and loop_iter >= 0",
+        "c03_continuing": "implies(loop_iter > 0 and not is_finished, fc < B_ and poll_iteration <= MI - 1)",
+        "c03_first": "implies(loop_iter == 0, sc == NT and ss == 0 and poll_iteration == 0 and not is_finished)",
+        "c03_budget": "fc <= ite(B_ >= ghost.fc_init, B_, ghost.fc_init) and fc >= ghost.fc_init",
+        "c03_iter_is_pi": "implies(loop_iter > 0, self.optim_state['iter'] == poll_iteration) and poll_iteration <= ite(MI - 1 >= 0, MI - 1, 0)",
+        "c03_calls_counted": "ghost.n_calls == fc",
+        "c10_no_failure": "not truthy(ghost.target_raised)",
         "logger_wf": wf_at("self.function_logger"),
-        "options_kept": "NT == ghost.NT0 and MI == ghost.MI0 and B_ == ghost.B0 and cap == old(cap) and nfs == ghost.nfs0"
+        "c03_options_kept": "NT == ghost.NT0 and MI == ghost.MI0 and B_ == ghost.B0 and cap == old(cap) and nfs == ghost.nfs0"
                         " and self.options['tol_fun'] == old(self.options['tol_fun'])",
         # C13
-        "mesh_cap": "msi <= cap and ssi <= msi",
+        "c13_mesh_cap": "msi <= cap and ssi <= msi",
         # C04
         "c04_incumbent_logged": "implies(" + DET + ", " + INC("self.u_best", "self.yval") + ")",
         "c04_incumbent_minimal": "implies(" + DET + ", " + MIN("self.yval") + ")",
@@ -122,7 +122,7 @@ def _(c):
         "c19_func_count_monotone": HIST_FC,
         "c19_last_is_current": "implies(is_finished and ((" + DET + ") or poll_iteration == 0), rows(" + HU + ") >= 1 and pteq(pt(self.u), row(" + HU + ", rows(" + HU + ") - 1)) and implies(" + DET + ", self.yval == " + HY + "[rows(" + HY + ") - 1]))",
         "c04_level_kept": "lvl == ghost.lvl0 and truthy(self.options['sloppy_improvement'])",
-        "msg_truth": "implies(is_finished, "
+        "c03_msg_truth": "implies(is_finished, "
                      "(not streq(msg, '')) and streq(self.optim_state['termination_msg'], msg)"
                      " and implies(streq(msg, MSG_FUN), fc >= B_)"
                      " and implies(streq(msg, MSG_ITER), poll_iteration >= MI - 1)"
@@ -134,11 +134,11 @@ def _(c):
            modifies_extra=["ghost.fc_round", "ghost.hidx", "ghost.hw"])
     c.hook("self.optim_state['search_count'] = 0", {"ghost.fc_round": "fc"})
     c.loop(1, invariants={
-        "tail_count": "fc == ghost.fc_tail0 + i_sample and i_sample >= 0",
-        "calls_counted": "ghost.n_calls == fc",
-        "no_failure": "not truthy(ghost.target_raised)",
+        "c03_tail_count": "fc == ghost.fc_tail0 + i_sample and i_sample >= 0",
+        "c03_calls_counted": "ghost.n_calls == fc",
+        "c10_no_failure": "not truthy(ghost.target_raised)",
         "logger_wf": wf_at("self.function_logger"),
-        "nfs_kept": "nfs == ghost.nfs1 and B_ == ghost.B1",
+        "c03_nfs_kept": "nfs == ghost.nfs1 and B_ == ghost.B1",
         "c02_sampling_point_feasible": FEAS("self.u"),
         "c02_log_feasible": LOGFEAS,
     }, variant=["nfs - i_sample"], ghost={"fc_tail0": "fc", "nfs1": "nfs", "B1": "B_"})
@@ -159,7 +159,7 @@ def _(c):
     inv_c02(c, require=False)
     c.req("c02_current_point_feasible", FEAS("self.u"), props=["C02"])
     c.req("c02_log_feasible", LOGFEAS, props=["C02"])
-    c.req("fresh_history", "rows(" + HU + ") == 0 and " + H_ALIGNED, props=["C02", "C19", "C05"])
+    c.req("fresh_history", "rows(" + HU + ") == 0 and " + H_ALIGNED, props=["C19"])
     c.ens("returned_point_feasible", "feasx(pt(self.x))", top=True, props=["C02"])
     # ---- C19 -----------------------------------------------------------------------------------------------------
     c.req("fresh_history_c19", "rows(" + HX + ") == 0 and rows(" + HFC + ") == 0", props=["C19"])
@@ -216,8 +216,8 @@ def _(c):
     inv_c02(c, require=False)
     c.req("c02_current_point_feasible", FEAS("self.u"), props=["C02"])
     c.req("c02_log_feasible", LOGFEAS, props=["C02"])
-    c.ens("history_untouched", "same(" + HU + ", old(" + HU + ")) and " + H_ALIGNED.replace("rows(self.iteration_history['fval'])", "rows(self.iteration_history['fval'])"), props=["C02", "C19", "C05"])
-    c.req("hist_aligned", H_ALIGNED, props=["C02", "C19", "C05"])
+    c.ens("history_untouched", "same(" + HU + ", old(" + HU + ")) and " + H_ALIGNED.replace("rows(self.iteration_history['fval'])", "rows(self.iteration_history['fval'])"), props=["C19"])
+    c.req("hist_aligned", H_ALIGNED, props=["C19"])
     c.ens("sloppy_kept", "truthy(self.options['sloppy_improvement']) == truthy(old(self.options['sloppy_improvement']))")
     c.ens("stobads_off_kept", "implies(not truthy(old(self.options['stobads'])), not truthy(self.options['stobads']))")
     c.result = {"tuple": [{}, {}, {}, {}]}
@@ -227,12 +227,12 @@ def _(c):
 @contract(B + "._init_mesh_", serves=["C03", "C05"])
 def _(c):
     common(c)
-    c.loop(0, invariants={"count_grows": "fc >= old(fc)",
-                          "calls_counted": "ghost.n_calls - old(ghost.n_calls) == fc - old(fc)",
-                          "no_failure": "not truthy(ghost.target_raised)",
+    c.loop(0, invariants={"c03_count_grows": "fc >= old(fc)",
+                          "c03_calls_counted": "ghost.n_calls - old(ghost.n_calls) == fc - old(fc)",
+                          "c10_no_failure": "not truthy(ghost.target_raised)",
                           "logger_wf": wf_at("self.function_logger"),
                           "c04_log_maps_back": LOGMAP, "c04_log_grows": LOG_GROWS, "c04_he": "truthy(self.function_logger.he_noise_flag) == truthy(old(self.function_logger.he_noise_flag))",
-                          "c04_first": "self.function_logger.Xn >= 0",
+                          "log_nonempty": "self.function_logger.Xn >= 0",
                           "c02_log_feasible": LOGFEAS})
     c.req("fresh_log", "self.function_logger.Xn == -1", props=["C04", "C19"])
     c.req("log_maps_back", LOGMAP, props=["C04", "C19"])
@@ -254,18 +254,19 @@ def _(c):
 @contract(B + "._re_evaluate_history_", serves=["C19", "C05", "C02"])
 def _(c):
     common(c)
-    c.req("hist_aligned", H_ALIGNED)
-    c.ens("hist_aligned", H_ALIGNED)
+    c.req("hist_aligned", H_ALIGNED, props=["C19"])
+    c.ens("hist_aligned", H_ALIGNED, props=["C19"])
     c.ens("iterates_untouched", "same(" + HU + ", old(" + HU + ")) and rows(" + HU + ") == rows(old(" + HU + ")) and same(self.iteration_history['yval'], old(self.iteration_history['yval']))",
           top=True, props=["C19", "C05", "C02"])
-    c.ens("log_untouched", "fc == old(fc) and ghost.n_calls == old(ghost.n_calls) and self.function_logger.Xn == old(self.function_logger.Xn) and "
+    c.ens("calls_untouched", "ghost.n_calls == old(ghost.n_calls)", props=["C03"])
+    c.ens("log_untouched", "fc == old(fc) and self.function_logger.Xn == old(self.function_logger.Xn) and "
           "same(self.function_logger.X, old(self.function_logger.X)) and same(self.function_logger.Y, old(self.function_logger.Y))")
     c.ens("controller_untouched", "sc == old(sc) and ss == old(ss) and msi == old(msi) and ssi == old(ssi) and lvl == old(lvl) and NT == old(NT) and MI == old(MI) "
           "and B_ == old(B_) and nfs == old(nfs) and cap == old(cap) and self.options['tol_fun'] == old(self.options['tol_fun']) and "
           "truthy(self.options['sloppy_improvement']) == truthy(old(self.options['sloppy_improvement'])) and self.optim_state['mesh_size'] == old(self.optim_state['mesh_size']) "
           "and self.optim_state['tol_mesh'] == old(self.optim_state['tol_mesh']) and self.optim_state['iter'] == old(self.optim_state['iter'])")
-    c.loop(0, invariants={"hist_aligned": H_ALIGNED, "u_same": "same(" + HU + ", old(" + HU + ")) and rows(" + HU + ") == rows(old(" + HU + "))",
-                          "yval_same": "same(self.iteration_history['yval'], old(self.iteration_history['yval']))"})
+    c.loop(0, invariants={"hist_aligned": H_ALIGNED, "hist_u_same": "same(" + HU + ", old(" + HU + ")) and rows(" + HU + ") == rows(old(" + HU + "))",
+                          "hist_yval_same": "same(self.iteration_history['yval'], old(self.iteration_history['yval']))"})
 
 
 @contract(B + "._init_optim_state_", serves=["C02", "C01", "C13"])
